@@ -1,4 +1,5 @@
 import TextxVerif.Proofs.BaseTypes
+import TextxVerif.Proofs.BaseTypesLine
 /-!
 # C04 — built-in base types convert text to values faithfully
 
@@ -157,6 +158,252 @@ theorem C04_bool (cc : CharClasses) (hcc : Sane cc) (w : List Char) (b : Bool) (
   rw [hv] at this
   exact this
 
+/-! ### whole lines of numbers and bools (`Model: v*=TYPE;`), and literals given as plain text
+
+`litLine text items tail` is the text of the literals `items` (each preceded by its own whitespace)
+followed by `tail`; `Separated items` says that every literal but the first has at least one
+whitespace character before it (numbers and bools cannot touch: the regexes' own look-aheads).
+Whitespace is Arpeggio's default set (space, tab, newline, carriage return). -/
+
+/-- **INT alone needs less than a number boundary**: an int literal not followed by another ASCII digit is
+read by INT, whatever else follows (`12abc`, `12.5` → `12`), for every classification `cc`. -/
+theorem C04_int_only (cc : CharClasses) (i : IntLit) (hi : i.WF) (p : Option Char) (rest : List Char)
+    (hrest : Stops asciiDigit rest) : Reads cc .INT p i.text rest (.int i.text) := by
+  obtain ⟨q, h⟩ := int_hd (cc := cc) i hi rest hrest p
+  rw [← INT_shape] at h
+  exact ⟨q, firstMatch_hd (conv := Gen.Procs.INT) (alts := []) h (by simp [IntLit.text])⟩
+
+/-- **A whole line of numbers.** `Model: v*=NUMBER;` on any number of literals — int literals and float
+literals written with a '.' or an exponent, mixed, separated by whitespace, with leading and trailing
+whitespace — yields exactly their values in order: the int literals as ints (`int(text)`), the others as
+floats (`float(text)`). -/
+theorem C04_number_line (cc : CharClasses) (hcc : Sane cc) (items : List (Item NumLit))
+    (hitems : ∀ i ∈ items, (∀ c ∈ i.ws, isWs c = true) ∧ i.lit.WF cc) (hsep : Separated items)
+    (tail : List Char) (htail : ∀ c ∈ tail, isWs c = true) :
+    tokens cc .NUMBER (litLine NumLit.text items tail) = .ok (items.map (fun i => i.lit.val)) := by
+  refine tokens_litLine (cc := cc) .NUMBER NumLit.text NumLit.val (NumBoundary cc) NumBoundary.nil
+    (numBoundary_ws hcc) (NumLit.WF cc) ?_ (numLit_head hcc) items hitems (Or.inl hsep) tail htail
+  intro a ha p rest hb
+  cases a with
+  | int i => exact (C04_int_lit cc hcc i ha p rest hb).2
+  | float f => exact ((C04_float cc hcc f ha.1 p rest hb).2 ha.2).2
+
+/-- **A whole line of ints.** `Model: v*=INT;` and `Model: v*=NUMBER;` on whitespace-separated int
+literals yield the literals handed to `int()`, in order. -/
+theorem C04_int_line (cc : CharClasses) (hcc : Sane cc) (items : List (Item IntLit))
+    (hitems : ∀ i ∈ items, (∀ c ∈ i.ws, isWs c = true) ∧ i.lit.WF) (hsep : Separated items)
+    (tail : List Char) (htail : ∀ c ∈ tail, isWs c = true) :
+    tokens cc .INT (litLine IntLit.text items tail) = .ok (items.map (fun i => Py.Val.int i.lit.text)) ∧
+    tokens cc .NUMBER (litLine IntLit.text items tail) = .ok (items.map (fun i => Py.Val.int i.lit.text)) := by
+  constructor
+  · refine tokens_litLine (cc := cc) .INT IntLit.text (fun i => Py.Val.int i.text) (NumBoundary cc) NumBoundary.nil
+      (numBoundary_ws hcc) IntLit.WF ?_ intLit_head items hitems (Or.inl hsep) tail htail
+    intro a ha p rest hb
+    exact (C04_int_lit cc hcc a ha p rest hb).1
+  · refine tokens_litLine (cc := cc) .NUMBER IntLit.text (fun i => Py.Val.int i.text) (NumBoundary cc) NumBoundary.nil
+      (numBoundary_ws hcc) IntLit.WF ?_ intLit_head items hitems (Or.inl hsep) tail htail
+    intro a ha p rest hb
+    exact (C04_int_lit cc hcc a ha p rest hb).2
+
+/-- **A whole line of floats.** `Model: v*=FLOAT;` on whitespace-separated float literals (digits-only
+ones included) yields the literals handed to `float()`, in order; when all of them are written with a '.'
+or an exponent, `v*=STRICTFLOAT` and `v*=NUMBER` do the same. -/
+theorem C04_float_line (cc : CharClasses) (hcc : Sane cc) (items : List (Item FloatLit))
+    (hitems : ∀ i ∈ items, (∀ c ∈ i.ws, isWs c = true) ∧ i.lit.WF cc) (hsep : Separated items)
+    (tail : List Char) (htail : ∀ c ∈ tail, isWs c = true) :
+    tokens cc .FLOAT (litLine FloatLit.text items tail) = .ok (items.map (fun i => Py.Val.float i.lit.text)) ∧
+    ((∀ i ∈ items, i.lit.Strict) →
+      tokens cc .STRICTFLOAT (litLine FloatLit.text items tail) = .ok (items.map (fun i => Py.Val.float i.lit.text)) ∧
+      tokens cc .NUMBER (litLine FloatLit.text items tail) = .ok (items.map (fun i => Py.Val.float i.lit.text))) := by
+  constructor
+  · refine tokens_litLine (cc := cc) .FLOAT FloatLit.text (fun f => Py.Val.float f.text) (NumBoundary cc) NumBoundary.nil
+      (numBoundary_ws hcc) (FloatLit.WF cc) ?_ (floatLit_head hcc) items hitems (Or.inl hsep) tail htail
+    intro a ha p rest hb
+    exact (C04_float cc hcc a ha p rest hb).1
+  · intro hstrict
+    have hitems' : ∀ i ∈ items, (∀ c ∈ i.ws, isWs c = true) ∧ (i.lit.WF cc ∧ i.lit.Strict) :=
+      fun i hi => ⟨(hitems i hi).1, (hitems i hi).2, hstrict i hi⟩
+    constructor
+    · refine tokens_litLine (cc := cc) .STRICTFLOAT FloatLit.text (fun f => Py.Val.float f.text) (NumBoundary cc)
+        NumBoundary.nil (numBoundary_ws hcc) (fun f => f.WF cc ∧ f.Strict) ?_ (fun f hf => floatLit_head hcc f hf.1)
+        items hitems' (Or.inl hsep) tail htail
+      intro a ha p rest hb
+      exact ((C04_float cc hcc a ha.1 p rest hb).2 ha.2).1
+    · refine tokens_litLine (cc := cc) .NUMBER FloatLit.text (fun f => Py.Val.float f.text) (NumBoundary cc)
+        NumBoundary.nil (numBoundary_ws hcc) (fun f => f.WF cc ∧ f.Strict) ?_ (fun f hf => floatLit_head hcc f hf.1)
+        items hitems' (Or.inl hsep) tail htail
+      intro a ha p rest hb
+      exact ((C04_float cc hcc a ha.1 p rest hb).2 ha.2).2
+
+/-- **A whole line of bools.** `Model: v*=BOOL;` on whitespace-separated BOOL spellings yields the bools
+they stand for, in order. -/
+theorem C04_bool_line (cc : CharClasses) (hcc : Sane cc) (items : List (Item (List Char × Bool)))
+    (hitems : ∀ i ∈ items, (∀ c ∈ i.ws, isWs c = true) ∧ i.lit ∈ boolSpellings) (hsep : Separated items)
+    (tail : List Char) (htail : ∀ c ∈ tail, isWs c = true) :
+    tokens cc .BOOL (litLine Prod.fst items tail) = .ok (items.map (fun i => Py.Val.bool i.lit.2)) := by
+  refine tokens_litLine (cc := cc) .BOOL Prod.fst (fun a => Py.Val.bool a.2)
+    (fun rest => ∀ c, rest.head? = some c → cc.isWord c = false) (by simp)
+    (fun c t hc d hd => by simp at hd; subst hd; exact (ws_facts hcc hc).1)
+    (fun a => a ∈ boolSpellings) ?_ (fun a ha => bool_head a.1 a.2 ha) items hitems (Or.inl hsep) tail htail
+  intro a ha p rest hb
+  exact C04_bool cc hcc a.1 a.2 ha p rest hb
+
+/-- The separation is needed: without it the number-line statement is false — two touching float
+literals `1.5` `.5` are not read as two numbers (the look-ahead of the regexes rejects `1.5.5`; model and
+code agree on that, the property asks for numbers that are written apart). -/
+theorem C04_number_line_unseparated_false :
+    ¬ (∀ (items : List (Item NumLit)), (∀ i ∈ items, (∀ c ∈ i.ws, isWs c = true) ∧ i.lit.WF asciiCC) →
+        (tokens asciiCC .NUMBER (litLine NumLit.text items [])).toOption = some (items.map (fun i => i.lit.val))) := by
+  intro h
+  have := h [⟨[], .float ⟨[], .intDot '1' [] ['5'], none⟩⟩, ⟨[], .float ⟨[], .dotFrac '5' [], none⟩⟩] (by
+    intro i hi
+    simp only [List.mem_cons, List.not_mem_nil, or_false] at hi
+    rcases hi with hi | hi <;> subst hi
+    · exact ⟨by simp, ⟨Or.inl rfl, by decide, by simp⟩, Or.inl rfl⟩
+    · exact ⟨by simp, ⟨Or.inl rfl, by decide, by simp⟩, Or.inl rfl⟩)
+  revert this
+  decide +kernel
+
+/-- **Literals given as plain text.** `numLit?` is a hand-written scanner (sign, digits, '.', digits,
+exponent; ASCII digits) that does not use the regexes.  Every text it accepts is read completely by NUMBER
+at a number boundary: as an int when it is `[-+]?[0-9]+` (`litKind = 1`), else as a float (`litKind = 2`),
+and the very text is what reaches `int()` / `float()`.  The harness asks the driver for `litKind` of every
+literal it writes (`str(int)`, `repr`, `%e`, `%E`, `%g`, `%f`, `.5`, `5.`, `12e5` …), so that what Python
+prints for a number is checked to be of the form the theorems quantify over. -/
+theorem C04_number_text (cc : CharClasses) (hcc : Sane cc) (t : List Char) (ht : litKind t ≠ 0) (p : Option Char)
+    (rest : List Char) (hb : NumBoundary cc rest) : Reads cc .NUMBER p t rest (numVal t) := by
+  obtain ⟨a, ha⟩ := litKind_ne_zero ht
+  obtain ⟨h1, h2, h3⟩ := numLit?_sound cc hcc t a ha
+  subst h1
+  rw [← h3]
+  cases a with
+  | int i => exact (C04_int_lit cc hcc i h2 p rest hb).2
+  | float f => exact ((C04_float cc hcc f h2.1 p rest hb).2 h2.2).2
+
+/-- the same for a whole line: whitespace-separated texts accepted by the scanner, through `v*=NUMBER` -/
+theorem C04_number_line_text (cc : CharClasses) (hcc : Sane cc) (items : List (Item (List Char)))
+    (hitems : ∀ i ∈ items, (∀ c ∈ i.ws, isWs c = true) ∧ litKind i.lit ≠ 0) (hsep : Separated items)
+    (tail : List Char) (htail : ∀ c ∈ tail, isWs c = true) :
+    tokens cc .NUMBER (litLine id items tail) = .ok (items.map (fun i => numVal i.lit)) := by
+  refine tokens_litLine (cc := cc) .NUMBER id numVal (NumBoundary cc) NumBoundary.nil
+    (numBoundary_ws hcc) (fun t => litKind t ≠ 0) ?_ ?_ items hitems (Or.inl hsep) tail htail
+  · intro t ht p rest hb
+    exact C04_number_text cc hcc t ht p rest hb
+  · intro t ht
+    obtain ⟨a, ha⟩ := litKind_ne_zero ht
+    obtain ⟨h1, h2, _⟩ := numLit?_sound cc hcc t a ha
+    obtain ⟨c, t', h, hc⟩ := numLit_head hcc a h2
+    exact ⟨c, t', by rw [← h1]; exact h, hc⟩
+
+/-- FLOAT on plain text: every text the float scanner accepts (digits-only included) is read completely
+by FLOAT and reaches `float()` unchanged. -/
+theorem C04_float_text (cc : CharClasses) (hcc : Sane cc) (t : List Char) (f : FloatLit) (ht : floatLit? t = some f)
+    (p : Option Char) (rest : List Char) (hb : NumBoundary cc rest) : Reads cc .FLOAT p t rest (.float t) := by
+  obtain ⟨h1, h2⟩ := floatLit?_sound cc hcc t f ht
+  rw [← h1]
+  exact (C04_float cc hcc f h2 p rest hb).1
+
+/-- **Lines as the harness writes them.** `lineHyp ty items tail` is a decidable check of the hypotheses
+of the line theorems on plain text: every item is whitespace followed by a text that the scanners accept
+as a literal for `ty` (INT: `[-+]?[0-9]+`; STRICTFLOAT: float literal with '.' or exponent; NUMBER: either;
+FLOAT: any float literal; BOOL: a spelling of the table; STRING: `encode q s` of a string without trailing
+backslash, decoded by `strLit?`), items are separated (strings may touch), the tail is whitespace.
+Whenever it holds, `Model: v*=ty;` on the line yields `litVal ty` of every literal text: the text itself
+handed to `int()` / `float()`, the bool the spelling stands for, or the decoded string.  The driver evaluates `lineHyp` on
+every generated line and the harness compares it with its own hypothesis predicate. -/
+theorem C04_line_checked (cc : CharClasses) (hcc : Sane cc) (ty : BaseType) (items : List (Item (List Char)))
+    (tail : List Char) (h : lineHyp ty items tail = true) :
+    tokens cc ty (litLine id items tail) = .ok (items.map (fun i => litVal ty i.lit)) := by
+  obtain ⟨hitems, hsep, htail⟩ := lineHyp_spec h
+  by_cases hty : ty = .STRING
+  · -- strings: no boundary needed, they may touch
+    subst hty
+    refine tokens_litLine (cc := cc) .STRING id (litVal .STRING) (fun _ => True) trivial (fun _ _ _ => trivial)
+      (fun t => litOk .STRING t = true) ?_ ?_ items hitems (Or.inr (fun _ => trivial)) tail htail
+    · intro t ht p rest _
+      simp only [litOk, Option.isSome_iff_exists] at ht
+      obtain ⟨⟨q, s⟩, hqs⟩ := ht
+      obtain ⟨h1, h2, h3⟩ := strLit?_sound t q s hqs
+      have := C04_string cc q h2 s h3 p rest
+      rw [← h1] at this
+      have hv : litVal .STRING t = .str s := by simp [litVal, hqs]
+      show Reads cc .STRING p t rest (litVal .STRING t)
+      rw [hv]; exact this
+    · intro t ht
+      simp only [litOk, Option.isSome_iff_exists] at ht
+      obtain ⟨⟨q, s⟩, hqs⟩ := ht
+      obtain ⟨h1, h2, _⟩ := strLit?_sound t q s hqs
+      exact ⟨q, escape q s ++ [q], by rw [h1]; rfl, quote_not_ws q h2⟩
+  have hsep' : Separated items := hsep.resolve_left hty
+  have key : ∀ t, litOk ty t = true →
+      (∀ p rest, NumBoundary cc rest → Reads cc ty p t rest (litVal ty t)) ∧ ∃ c t', t = c :: t' ∧ isWs c = false := by
+    intro t ht
+    cases ty with
+    | INT =>
+      obtain ⟨i, hi⟩ := litKind_one (t := t) (by simpa [litOk] using ht)
+      obtain ⟨h1, h2, _⟩ := numLit?_sound cc hcc t _ hi
+      subst h1
+      exact ⟨fun p rest hb => (C04_int_lit cc hcc i h2 p rest hb).1, numLit_head hcc _ h2⟩
+    | NUMBER =>
+      have hk : litKind t ≠ 0 := by simpa [litOk] using ht
+      obtain ⟨a, ha⟩ := litKind_ne_zero hk
+      obtain ⟨h1, h2, _⟩ := numLit?_sound cc hcc t a ha
+      refine ⟨fun p rest hb => C04_number_text cc hcc t hk p rest hb, ?_⟩
+      rw [← h1]; exact numLit_head hcc a h2
+    | STRICTFLOAT =>
+      obtain ⟨f, hf⟩ := litKind_two (t := t) (by simpa [litOk] using ht)
+      obtain ⟨h1, h2, _⟩ := numLit?_sound cc hcc t _ hf
+      subst h1
+      exact ⟨fun p rest hb => ((C04_float cc hcc f h2.1 p rest hb).2 h2.2).1, numLit_head hcc _ h2⟩
+    | FLOAT =>
+      simp only [litOk, Option.isSome_iff_exists] at ht
+      obtain ⟨f, hf⟩ := ht
+      obtain ⟨h1, h2⟩ := floatLit?_sound cc hcc t f hf
+      refine ⟨fun p rest hb => C04_float_text cc hcc t f hf p rest hb, ?_⟩
+      rw [← h1]; exact floatLit_head hcc f h2
+    | BOOL =>
+      simp only [litOk, Option.isSome_iff_exists] at ht
+      obtain ⟨b, hb'⟩ := ht
+      have hm := boolOf_mem hb'
+      refine ⟨fun p rest hb => ?_, bool_head t b hm⟩
+      have := C04_bool cc hcc t b hm p rest (fun c hc => (hb c hc).1)
+      simpa [litVal, hb'] using this
+    | STRING => exact absurd rfl hty
+  exact tokens_litLine (cc := cc) ty id (litVal ty) (NumBoundary cc) NumBoundary.nil (numBoundary_ws hcc)
+    (fun t => litOk ty t = true) (fun t ht p rest hb => (key t ht).1 p rest hb) (fun t ht => (key t ht).2)
+    items hitems (Or.inl hsep') tail htail
+
+/-- **STRING on plain text.** `strLit?` decodes a quoted text (no regex involved); it accepts exactly the
+texts `encode q s` of the property (either quote, only that quote escaped, `s` not ending in a backslash)
+and returns `s`; every accepted text is read completely by STRING and yields the decoded string. -/
+theorem C04_string_text (cc : CharClasses) (t : List Char) :
+    (∀ q s, strLit? t = some (q, s) ↔ t = encode q s ∧ (q = '"' ∨ q = '\'') ∧ noTrailingBackslash s) ∧
+    (∀ q s, strLit? t = some (q, s) → ∀ p rest, Reads cc .STRING p t rest (.str s)) := by
+  constructor
+  · intro q s
+    constructor
+    · exact strLit?_sound t q s
+    · intro ⟨h1, h2, h3⟩; subst h1; exact strLit?_complete q h2 s h3
+  · intro q s h p rest
+    obtain ⟨h1, h2, h3⟩ := strLit?_sound t q s h
+    rw [h1]
+    exact C04_string cc q h2 s h3 p rest
+
+/-- **The scanners are exactly the literal grammars** (independent specification of `intLit?` /
+`floatLit?`, which the driver runs): a text is accepted with parse `i` / `f` iff `i` / `f` is a
+well-formed literal (ASCII digits) whose text it is. -/
+theorem C04_scanner_exact (t : List Char) :
+    (∀ i, intLit? t = some i ↔ i.text = t ∧ i.WF) ∧
+    (∀ f, floatLit? t = some f ↔ f.text = t ∧ f.WF asciiCC) :=
+  ⟨intLit?_iff t, floatLit?_iff t⟩
+
+/-- `str(z)` of every Python int is classified as an int literal by the scanner (so `C04_number_text`
+and `C04_line_checked` apply to every int the way Python prints it). -/
+theorem C04_strInt_kind (z : Int) : litKind (Py.strInt z) = 1 := by
+  have h := intLit?_complete (intLitOf z) (intLitOf_wf z)
+  rw [intLitOf_text] at h
+  simp [litKind, numLit?, h]
+
 /-! ### non-vacuity: the hypotheses are met by concrete, non-trivial instances -/
 example : Sane asciiCC := asciiCC_sane
 example : noTrailingBackslash "a\\\"b 'c' \\\\x".toList := by decide
@@ -175,5 +422,36 @@ example : tokenAt asciiCC .NUMBER (none, "-12.5e+10 7".toList) =
     some (.float "-12.5e+10".toList, (some '0', " 7".toList)) := by decide +kernel
 example : tokenAt asciiCC .NUMBER (none, "-12 7".toList) = some (.int "-12".toList, (some '2', " 7".toList)) := by
   decide +kernel
+
+/-! non-vacuity of the line theorems and of the scanner hypotheses -/
+example : Separated ([⟨[], NumLit.int ⟨['-'], '1', ['2']⟩⟩, ⟨['\n', ' '], .float ⟨[], .dotFrac '5' [], none⟩⟩] : List (Item NumLit)) := by
+  intro i hi; simp at hi; subst hi; simp
+example : (NumLit.float ⟨[], .int '1' ['2'], some ⟨'E', ['-'], '5', []⟩⟩).WF asciiCC := by
+  refine ⟨⟨Or.inl rfl, by decide, ?_⟩, Or.inr rfl⟩
+  intro x hx; cases hx
+  exact ⟨Or.inr rfl, Or.inr (Or.inr rfl), by decide, by decide⟩
+example : (NumLit.int ⟨['+'], '0', ['0', '7']⟩).WF asciiCC := ⟨Or.inr (Or.inl rfl), by decide, by decide⟩
+example : litLine NumLit.text [⟨[' '], .int ⟨['-'], '1', ['2']⟩⟩, ⟨['\n', ' '], .float ⟨[], .dotFrac '5' [], none⟩⟩,
+    ⟨['\t'], .float ⟨[], .int '1' ['2'], some ⟨'E', ['-'], '5', []⟩⟩⟩] ['\n'] = " -12\n .5\t12E-5\n".toList := by decide
+example : (tokens asciiCC .NUMBER " -12\n .5\t12E-5\n".toList).toOption =
+    some [.int "-12".toList, .float ".5".toList, .float "12E-5".toList] := by decide +kernel
+example : (tokens asciiCC .BOOL "true 0\nFalse".toList).toOption = some [.bool true, .bool false, .bool false] := by
+  decide +kernel
+/-- the separation is needed: touching numbers are not two numbers -/
+example : (tokens asciiCC .NUMBER "1.5.5".toList).toOption = none := by decide +kernel
+example : Stops asciiDigit "abc".toList := by intro c hc; simp at hc; subst hc; decide
+example : tokenAt asciiCC .INT (none, "12abc".toList) = some (.int "12".toList, (some '2', "abc".toList)) := by
+  decide +kernel
+example : litKind "-12".toList = 1 ∧ litKind "1e+22".toList = 2 ∧ litKind "-1.5E-7".toList = 2 ∧ litKind "5.".toList = 2 ∧
+    litKind ".5".toList = 2 ∧ litKind "1.2.3".toList = 0 ∧ litKind "1e".toList = 0 ∧ litKind "inf".toList = 0 := by decide
+example : (floatLit? "12".toList).map FloatLit.strictB = some false := by decide
+example : lineHyp .NUMBER [⟨[' '], "-12".toList⟩, ⟨['\n', ' '], ".5".toList⟩, ⟨['\t'], "12E-5".toList⟩] ['\n'] = true := by
+  decide
+example : lineHyp .BOOL [⟨[], "true".toList⟩, ⟨[' '], "0".toList⟩] [] = true := by decide
+example : lineHyp .INT [⟨[], "1".toList⟩, ⟨[], "2".toList⟩] [] = false := by decide
+example : lineHyp .STRICTFLOAT [⟨[], "12".toList⟩] [] = false ∧ lineHyp .FLOAT [⟨[], "12".toList⟩] [] = true := by decide
+example : lineHyp .STRING [⟨[], "\"a\\\"b\"".toList⟩, ⟨[], "'c\\''".toList⟩, ⟨[' '], "\"\"".toList⟩] ['\n'] = true := by decide
+example : strLit? "'it\\'s \\\\ \"x\"'".toList = some ('\'', "it's \\\\ \"x\"".toList) := by decide
+example : strLit? "\"a\\\"".toList = none ∧ strLit? "\"a\"b\"".toList = none := by decide
 
 end BaseTypes
